@@ -16,6 +16,7 @@ var (
 	sizeModes  = []string{"nil", "nil", "none", "none", "both", "both", "both", "both", "bothkeep", "wkeep", "wkeep", "wkeep", "wkeep", "hkeep", "hkeep", "hkeep", "hkeep", "wonly", "honly"}
 	cellModes  = []string{"none", "none", "both", "both", "bothkeep", "wkeep", "wkeep", "wkeep", "hkeep", "hkeep", "hkeep", "wonly", "honly"}
 	vias       = []string{"data", "data", "data", "file", "file", "details-data", "details-file", "details-both"}
+	reuseVias  = []string{"data", "file", "file", "file", "details-data", "details-file", "details-file", "details-both"}
 	tplKinds   = weighted(map[string]int{"img": 8, "imgfile": 4, "table": 4, "cellimg": 3, "cellimgd": 2, "cellimgf": 2, "phpara": 18, "cellph": 10,
 		"render": 6, "reopen": 5, "renumber": 1, "save": 3, "header": 2, "footer": 1, "listitem": 2, "para": 3})
 	directKinds = weighted(map[string]int{"img": 14, "imgfile": 8, "table": 3, "cellimg": 6, "cellimgd": 4, "cellimgf": 4,
@@ -111,6 +112,8 @@ func genCase(t *rapid.T) Case {
 		kinds = directKinds
 	}
 	nTables, pending := 0, map[string]bool{}
+	// reuse: the case keeps one TemplateEngine, one TemplateData and a few file paths whose content it replaces between uses
+	rs := &reuseGen{on: rapid.IntRange(0, 1).Draw(t, "reuse") == 1}
 	sel := func() []int {
 		return []int{rapid.IntRange(0, 5).Draw(t, "ts"), rapid.IntRange(0, 5).Draw(t, "rs"), rapid.IntRange(0, 5).Draw(t, "cs")}
 	}
@@ -123,11 +126,18 @@ func genCase(t *rapid.T) Case {
 		if len(pending) > 0 && rapid.IntRange(0, 4).Draw(t, "rendernow") == 0 {
 			k = "render"
 		}
+		if rs.on && (k == "img" || k == "cellimgd") && rapid.IntRange(0, 2).Draw(t, "fromfile") == 0 {
+			k = map[string]string{"img": "imgfile", "cellimgd": "cellimgf"}[k]
+		}
 		switch k {
 		case "img", "imgfile":
 			im := genImg(t)
 			sz := genSize(t, sizeModes)
-			c.Steps = append(c.Steps, Step{K: k, Img: &im, Size: &sz, Look: genLook(t), S: rapid.SampledFrom(someTexts).Draw(t, "alt")})
+			st := Step{K: k, Img: &im, Size: &sz, Look: genLook(t), S: rapid.SampledFrom(someTexts).Draw(t, "alt")}
+			if k == "imgfile" {
+				st.Slot = rs.slot(t)
+			}
+			c.Steps = append(c.Steps, st)
 		case "table":
 			addTable()
 		case "cellimg", "cellimgd", "cellimgf":
@@ -141,8 +151,12 @@ func genCase(t *rapid.T) Case {
 			} else {
 				sz = genSize(t, []string{"none", "wkeep", "wkeep"})
 			}
-			c.Steps = append(c.Steps, Step{K: k, Img: &im, Size: &sz, Sel: sel(), B: rapid.Bool().Draw(t, "file"), N: rapid.IntRange(0, 1).Draw(t, "fmtgiven"),
-				S: rapid.SampledFrom(someTexts).Draw(t, "alt")})
+			st := Step{K: k, Img: &im, Size: &sz, Sel: sel(), B: rapid.Bool().Draw(t, "file"), N: rapid.IntRange(0, 1).Draw(t, "fmtgiven"),
+				S: rapid.SampledFrom(someTexts).Draw(t, "alt")}
+			if k == "cellimgf" || (k == "cellimg" && st.B) {
+				st.Slot = rs.slot(t)
+			}
+			c.Steps = append(c.Steps, st)
 		case "phpara":
 			tx, ph := genTplPara(t)
 			c.Steps = append(c.Steps, Step{K: k, Texts: tx, Phs: ph, N: rapid.IntRange(0, 2).Draw(t, "sp")})
@@ -174,11 +188,19 @@ func genCase(t *rapid.T) Case {
 				}
 			}
 		case "render":
+			if rs.on && len(rs.lastNames) > 0 && (len(pending) == 0 || rapid.IntRange(0, 2).Draw(t, "againnow") == 0) {
+				// the engine renders the template it holds once more, with other data
+				c.Steps = append(c.Steps, genRender(t, rs.lastNames, rs, true))
+				continue
+			}
 			if len(pending) == 0 && rapid.IntRange(0, 3).Draw(t, "emptyrender") != 0 {
 				continue
 			}
-			c.Steps = append(c.Steps, genRender(t, pending))
+			c.Steps = append(c.Steps, genRender(t, pending, rs, false))
 			pending = map[string]bool{}
+			if rs.on && len(rs.lastNames) > 0 && rapid.IntRange(0, 2).Draw(t, "againafter") == 0 {
+				c.Steps = append(c.Steps, genRender(t, rs.lastNames, rs, true))
+			}
 		case "reopen":
 			c.Steps = append(c.Steps, Step{K: k, B: rapid.IntRange(0, 3).Draw(t, "viafile") == 0})
 		case "renumber":
@@ -192,26 +214,86 @@ func genCase(t *rapid.T) Case {
 		}
 	}
 	if len(pending) > 0 && rapid.IntRange(0, 3).Draw(t, "finalrender") != 0 {
-		c.Steps = append(c.Steps, genRender(t, pending))
+		c.Steps = append(c.Steps, genRender(t, pending, rs, false))
+		if rs.on && len(rs.lastNames) > 0 && rapid.IntRange(0, 1).Draw(t, "againlast") == 0 {
+			c.Steps = append(c.Steps, genRender(t, rs.lastNames, rs, true))
+		}
 	}
 	return c
 }
 
-func genRender(t *rapid.T, pending map[string]bool) Step {
+// reuseGen is the generator's view of the sources a case keeps: which names the one engine's loaded template still
+// has as placeholders, which names the one TemplateData holds, and how the previous render supplied each name.
+type reuseGen struct {
+	on        bool
+	lastNames map[string]bool   // placeholders of the document the one engine loaded last
+	shared    map[string]bool   // names set in the one TemplateData
+	prev      map[string]TplImg // entry of the previous render, per name
+}
+
+func (rs *reuseGen) slot(t *rapid.T) int {
+	if !rs.on {
+		return 0
+	}
+	return rapid.SampledFrom([]int{0, 1, 1, 1, 1, 2, 2, 3}).Draw(t, "slot")
+}
+
+func genRender(t *rapid.T, pending map[string]bool, rs *reuseGen, again bool) Step {
 	st := Step{K: "render"}
+	if rs.on {
+		st.Eng = rapid.SampledFrom([]int{0, 1, 1, 1}).Draw(t, "eng")
+		st.TD = rapid.SampledFrom([]int{0, 1, 1}).Draw(t, "td")
+		if again {
+			st.Eng = 2
+		}
+	}
 	for _, name := range []string{"a", "b", "c", "d", "img_1", "X9"} {
 		use := pending[name] && rapid.IntRange(0, 9).Draw(t, "supply") != 0
 		if !pending[name] && rapid.IntRange(0, 9).Draw(t, "extra") == 0 {
 			use = true
 		}
+		if use && st.TD == 1 && rs.shared[name] && rapid.IntRange(0, 2).Draw(t, "leave") == 0 {
+			use = false // the entry an earlier render set stays
+		}
 		if !use {
 			continue
 		}
-		d := TplImg{Name: name, Img: genImg(t), Via: rapid.SampledFrom(vias).Draw(t, "via"), Size: genSize(t, sizeModes), Look: genLook(t)}
+		vs := vias
+		if rs.on {
+			vs = reuseVias
+		}
+		d := TplImg{Name: name, Img: genImg(t), Via: rapid.SampledFrom(vs).Draw(t, "via"), Size: genSize(t, sizeModes), Look: genLook(t)}
+		if viaFile(d.Via) {
+			d.Slot = rs.slot(t)
+		}
+		if p, ok := rs.prev[name]; ok && rs.on && rapid.IntRange(0, 1).Draw(t, "likebefore") == 0 {
+			// the same source as in the previous render (same call, same path), other image
+			d.Via, d.Slot = p.Via, p.Slot
+			if rapid.IntRange(0, 1).Draw(t, "samesize") == 0 {
+				d.Size, d.Look = p.Size, p.Look
+			}
+		}
 		if d.Via != "data" && d.Via != "file" {
 			d.Alt, d.Title = rapid.SampledFrom(someTexts).Draw(t, "alt"), rapid.SampledFrom(someTexts).Draw(t, "title")
 		}
 		st.Data = append(st.Data, d)
+	}
+	if rs.on {
+		if rs.prev == nil {
+			rs.prev, rs.shared = map[string]TplImg{}, map[string]bool{}
+		}
+		for _, d := range st.Data {
+			rs.prev[d.Name] = d
+			if st.TD == 1 {
+				rs.shared[d.Name] = true
+			}
+		}
+		if st.Eng == 1 {
+			rs.lastNames = map[string]bool{}
+			for n := range pending {
+				rs.lastNames[n] = true
+			}
+		}
 	}
 	return st
 }
